@@ -7,7 +7,10 @@
 class PolarR6_Poisson_CzarnyGeometry : public SourceTerm
 {
 public:
-    PolarR6_Poisson_CzarnyGeometry() = default;
+    PolarR6_Poisson_CzarnyGeometry()
+    {
+        initializeGeometry();
+    }
     explicit PolarR6_Poisson_CzarnyGeometry(const double& Rmax, const double& inverse_aspect_ratio_epsilon,
                                             const double& ellipticity_e);
     virtual ~PolarR6_Poisson_CzarnyGeometry() = default;
